@@ -746,7 +746,8 @@ def _reduce(name, a, axis=None, out=None, keepdims=False, dtype=None, **kw):
     moved = a.transpose([i for i in range(a.ndim) if i != axis] + [axis])
     n = a.shape[axis]
     rshape = moved.shape[:-1]
-    out_ = [fin(fn(moved._d[i * n:(i + 1) * n])) for i in range(_prod(rshape))]
+    md = moved._d
+    out_ = [fin(fn(md[i * n:(i + 1) * n])) for i in range(_prod(rshape))]
     if not rshape:
         return out_[0]
     return ndarray(rshape, k, out_)
@@ -865,7 +866,8 @@ def _pct_generic(a, q, axis, skip, **kw):
             moved = a.transpose([i for i in range(a.ndim) if i != ax] + [ax])
             n = a.shape[ax]
             rshape = moved.shape[:-1]
-            results.append((rshape, [fn(moved._d[i * n:(i + 1) * n]) for i in range(_prod(rshape))]))
+            md = moved._d
+            results.append((rshape, [fn(md[i * n:(i + 1) * n]) for i in range(_prod(rshape))]))
     if qs == ():
         rshape, cells = results[0]
         return cells[0] if rshape == () else ndarray(rshape, 'f', cells)
@@ -1388,8 +1390,9 @@ class _MA(object):
         rshape = dm.shape[:-1]
         vals = []
         msk = []
+        dmd, mmd = dm._d, mm._d
         for i in range(_prod(rshape)):
-            r = fibre(dm._d[i * n:(i + 1) * n], mm._d[i * n:(i + 1) * n])
+            r = fibre(dmd[i * n:(i + 1) * n], mmd[i * n:(i + 1) * n])
             msk.append(r is None)
             vals.append({'b': True, 'i': 0, 'f': 0.0}.get(rk, None) if r is None else r)
         if not rshape:
